@@ -493,6 +493,83 @@ func genDispatch(repo, out string) error {
 	main := parseSwitch("ProcessEntry", false)
 	user := parseSwitch("userTypeLogAuditFn", true)
 
+	// the rest of ProcessEntry must be exactly:
+	//   var entryFunc func(*SshdProcessorer) error ; switch {...} ;
+	//   if entryFunc != nil { <log-only> ; return entryFunc(config) } ; <log-only> ; return nil
+	// where <log-only> is  if logger.Level().Enabled(...) { logger.Debug*(...) }  (calls of the package logger only):
+	// the chosen handler runs exactly once and its result is returned unchanged
+	if fd := funcs["ProcessEntry"]; fd != nil {
+		src := srcs[fileOf["ProcessEntry"]]
+		txt := func(n ast.Node) string { return strings.ReplaceAll(nodeStr(fset, src, n), " ", "") }
+		var logOnly func(st ast.Stmt) bool
+		logCall := func(e ast.Expr) bool {
+			c, ok := e.(*ast.CallExpr)
+			if !ok {
+				return false
+			}
+			f := txt(c.Fun)
+			if !strings.HasPrefix(f, "logger.Debug") && !strings.HasPrefix(f, "logger.Info") {
+				return false
+			}
+			for _, a := range c.Args {
+				switch x := a.(type) {
+				case *ast.BasicLit:
+				case *ast.SelectorExpr:
+					if txt(x) != "config.logEntry" {
+						return false
+					}
+				default:
+					return false
+				}
+			}
+			return true
+		}
+		logOnly = func(st ast.Stmt) bool {
+			switch v := st.(type) {
+			case *ast.ExprStmt:
+				return logCall(v.X)
+			case *ast.IfStmt:
+				if v.Init != nil || v.Else != nil || txt(v.Cond) != "logger.Level().Enabled(zap.DebugLevel)" {
+					return false
+				}
+				for _, b := range v.Body.List {
+					if !logOnly(b) {
+						return false
+					}
+				}
+				return true
+			}
+			return false
+		}
+		body := fd.Body.List
+		ok := len(body) >= 4
+		if ok {
+			_, isDecl := body[0].(*ast.DeclStmt)
+			_, isSwitch := body[1].(*ast.SwitchStmt)
+			ok = isDecl && isSwitch && txt(body[0]) == "varentryFuncfunc(*SshdProcessorer)error"
+		}
+		if ok {
+			ifs, isIf := body[2].(*ast.IfStmt)
+			ok = isIf && ifs.Init == nil && ifs.Else == nil && txt(ifs.Cond) == "entryFunc!=nil" && len(ifs.Body.List) >= 1
+			if ok {
+				last := ifs.Body.List[len(ifs.Body.List)-1]
+				ok = txt(last) == "returnentryFunc(config)"
+				for _, st := range ifs.Body.List[:len(ifs.Body.List)-1] {
+					ok = ok && logOnly(st)
+				}
+			}
+		}
+		if ok {
+			for _, st := range body[3 : len(body)-1] {
+				ok = ok && logOnly(st)
+			}
+			ok = ok && txt(body[len(body)-1]) == "returnnil"
+		}
+		if !ok {
+			problems = append(problems, "ProcessEntry: the statements around the dispatch switch are not {declare entryFunc; switch; if entryFunc != nil {log-only; return entryFunc(config)}; log-only; return nil}: the handler may run more or less than once")
+		}
+	}
+
 	// handler names
 	hset := map[string]bool{}
 	var hnames []string
